@@ -6,9 +6,9 @@ LEVEL = "exploration"
 RULE = ("the C03 triple/configuration stream with the base minor swept over 0-5; every merged notebook returned is validated "
         "with pure jsonschema (Draft-4) against nbformat's schema file for the minor version the merged notebook itself declares. "
         "Non-trivial: >= 1 conflicted decision or >= 1 custom action or a mixed-minor triple; distinct by (triple, configuration, "
-        "PATH variant). Inputs are validated by the same oracle first; invalid generations are discarded and counted.")
+        "PATH variant). For every 8th triple the real `nbmerge ... --out F` runs in-process and F is validated as read from disk. Inputs are validated by the same oracle first; invalid generations are discarded and counted.")
 FLOOR = {"quick": 2500, "thorough": 15000}
-REQUIRED_MONITORS = ("merge_returned", "schema_oracle")
+REQUIRED_MONITORS = ("merge_returned", "schema_oracle", "schema_oracle_file")
 ASSUMPTIONS = ["nbformat's shipped per-minor schema files define validity; nbformat.validate is not used (it mutates and relaxes)",
                "duplicate cell ids are counted as an observation, not judged (the JSON schema does not express uniqueness)",
                "merges that raise are C03's business and are only counted here"]
